@@ -22,6 +22,21 @@ fn render_once(p: &Prepared, opts: &OptSpec) -> Result<String, Failure> {
     Ok(root.to_serde_struct(&opts.to_options()))
 }
 
+/// the same history with a rendering (both sort orders, another option set) after every step, and a clone rendered
+/// in between: observing a tree must not change what it renders later
+fn render_observed(p: &Prepared, opts: &OptSpec) -> Result<String, Failure> {
+    let mut root: Option<crate::sut::Element<String>> = None;
+    for b in &p.bytes {
+        let r = crate::sut::parse_with(b, root.take(), &crate::sut::ReaderCfg::default_slice()).map_err(|e| Failure::new(format!("a document was rejected: {}", e)))?;
+        let _ = r.to_serde_struct(&crate::sut::opts_quick(true, "Debug"));
+        let _ = r.clone().to_serde_struct(&opts.to_options());
+        let _ = r.to_serde_struct(&crate::sut::Options::serde_xml_rs());
+        root = Some(r);
+    }
+    let root = root.ok_or_else(|| Failure::new("no document"))?;
+    Ok(root.to_serde_struct(&opts.to_options()))
+}
+
 fn first_diff(a: &str, b: &str) -> String {
     let la: Vec<&str> = a.lines().collect();
     let lb: Vec<&str> = b.lines().collect();
@@ -106,6 +121,15 @@ impl Property for C05 {
                     .with_detail(json!({"case": describe_case(&p), "options": opts.json(), "first": first, "other": again})));
             }
             st.count("repetitions_compared");
+        }
+        // renderings in between (after every document, other options, a clone) must not influence the final one
+        {
+            let observed = render_observed(&p, &opts)?;
+            if observed != first {
+                return Err(Failure::new(format!("rendering the tree after every step changes what it renders at the end: {}", first_diff(&first, &observed)))
+                    .with_detail(json!({"case": describe_case(&p), "options": opts.json(), "first": first, "other": observed})));
+            }
+            st.count("histories_with_intermediate_renderings");
         }
         // across threads (fresh thread => fresh per-thread hash keys), one case in eight
         if tapes.a.len() % 8 == 0 {
@@ -301,7 +325,7 @@ impl Property for C05 {
         Ok(())
     }
     fn rule(&self) -> String {
-        "small-scope exhaustive: every document with up to 4 (thorough: 5) elements over the child names a, b, ab, A, type, rendered 4 times under both sort orders; sampled: tape-decoded document sequences over pools weighted towards identifier-colliding names (case/separator variants, keywords), arbitrary options; the bytes of parse+extend+render are compared across 8 (quick) / 16 (thorough) in-process repetitions (each HashMap instance draws fresh hash keys), across 4 threads for one case in eight, and across 4/8 fresh processes for 200/5000 cases. Non-trivial = some struct has two fields whose names collide after normalisation, or some position with two or more occurrences has two or more optional children (several demotions at one position); distinct by hash of the structural documents.".into()
+        "small-scope exhaustive: every document with up to 4 (thorough: 5) elements over the child names a, b, ab, A, type, rendered 4 times under both sort orders; sampled: tape-decoded document sequences over pools weighted towards identifier-colliding names (case/separator variants, keywords), arbitrary options; the bytes of parse+extend+render are compared across 8 (quick) / 16 (thorough) in-process repetitions, with a history that renders the tree (other options, a clone) after every document (each HashMap instance draws fresh hash keys), across 4 threads for one case in eight, and across 4/8 fresh processes for 200/5000 cases. Non-trivial = some struct has two fields whose names collide after normalisation, or some position with two or more occurrences has two or more optional children (several demotions at one position); distinct by hash of the structural documents.".into()
     }
     fn assumptions(&self) -> Vec<String> {
         vec![
